@@ -942,7 +942,7 @@ str_case_cmp (char *a, char *b)
   COPY_PTR (&s1, a);
   COPY_PTR (&s2, b);
 
-  return (int)(s1 - s2);
+  return (s1 < s2) ? -1 : (s1 > s2);	/* (a pointer difference does not fit into an int) */
 }				/* str_case_cmp() */
 
 static void
